@@ -373,3 +373,27 @@ def wrap(ty, t):
         if z3.is_string_value(t):
             return t.as_string()
     return SV(ty, t)
+
+
+# BIT(w, p): bit p of the machine word w, as an *uninterpreted* predicate in the list-level VCs (positions are Ints,
+# words are bit vectors; the lemma layer defines it by the 32-way macro - never int2bv)
+BIT = z3.Function("BIT", z3.BitVecSort(BVW), z3.IntSort(), z3.BoolSort())
+
+
+def bit_macro(w, p, width=32):
+    """definition of BIT for 0 <= p < width"""
+    return z3.Or(*[z3.And(p == c, z3.Extract(c, c, w) == 1) for c in range(width)])
+
+
+class BitStr(Sym):
+    """format(w, "032b"): the 32-character binary text of w (most significant bit first)"""
+
+    def __init__(self, w, width):
+        self.w, self.width = w, width
+
+
+class BitChar(Sym):
+    """one character of a BitStr: '1' iff BIT(w, pos)"""
+
+    def __init__(self, w, pos):
+        self.w, self.pos = w, pos
